@@ -50,7 +50,7 @@ def make_pool(family, kind, N, S, wdims, tdt, seed, auto=False):
     rng = rng_for(seed, family, kind, N, S, tuple(wdims), tdt)
     tdt = np.dtype(tdt)
     if kind == 'exact':
-        lo, hi = (0, 16)
+        lo, hi = (0, 16) if family != 'ttacc' else (0, 41)     # t-test accumulator: squares that do not fit uint8 (a square taken before promotion would wrap)
         X = rng.randint(lo, hi, (N, S))
     elif kind == 'signed':
         X = rng.randint(-8, 8, (N, S))
@@ -96,13 +96,18 @@ def mia_edges(kind):
 
 class DistSystem:
     def __init__(self, family, tdt, prec, S, wdims, pool_kind, N, seed, auto=False, policy='alt', rejections=(), max_rej=0,
-                 allow_early_compute=True, max_consecutive_computes=2):
+                 allow_early_compute=True, max_consecutive_computes=2, auto_edges=False):
         self.family, self.tdt, self.prec, self.S, self.wdims, self.kind, self.N, self.seed = family, tdt, prec, S, tuple(wdims), pool_kind, N, seed
         self.auto, self.policy = auto, policy
+        self.auto_edges = auto_edges          # MIA without explicit bin edges: the histogram window is taken from the first ACCEPTED batch
         self.rejections, self.max_rej = tuple(rejections), max_rej
         self.early_c = allow_early_compute
         self.max_cc = max_consecutive_computes
         self.X, self.Y, self.exact = make_pool(family, pool_kind, N, S, wdims, tdt, seed, auto)
+        if auto_edges:
+            self.X = self.X.copy()
+            self.X[0, :] = self.X.min(); self.X[1, :] = self.X.max()          # the first accepted batch (>= 2 rows, see menu) always spans the whole range
+            self.X[2:, :] = np.clip(self.X[2:, :], self.X.min() + 3, self.X.max() - 3) # the other rows (also used for refused batches) span a NARROWER range
         self.W = int(np.prod(self.wdims))
         self.tol = TOL['float64' if family == 'mia' else prec]
         self._oneshot = {}
@@ -125,7 +130,7 @@ class DistSystem:
     # ----------------------------------------------------------------------------------------------------- construction
     def describe(self):
         return {'family': self.family, 'trace_dtype': self.tdt, 'precision': self.prec, 'S': self.S, 'word_dims': list(self.wdims), 'pool': self.kind,
-                'N': self.N, 'auto_classes': self.auto, 'clock_policy': self.policy}
+                'N': self.N, 'auto_classes': self.auto, 'clock_policy': self.policy, 'auto_edges': self.auto_edges}
 
     def _prepare_template(self):
         sc = _scared()
@@ -163,6 +168,8 @@ class DistSystem:
             return D(precision=self.prec) if self.auto else D(partitions=list(CLASSES), precision=self.prec)
         if f == 'mia':
             kw = {} if self.auto else {'partitions': list(CLASSES)}
+            if self.auto_edges:
+                return sc.MIADistinguisher(bins_number=4, precision=self.prec, **kw)
             return sc.MIADistinguisher(bin_edges=mia_edges(self.kind), precision=self.prec, **kw)
         if f == 'tplbuild':
             return tplbuild_class()(partitions=list(TPLB_CLASSES), precision=self.prec)
@@ -208,7 +215,7 @@ class DistSystem:
             if nr < self.max_rej:
                 out.append((('R', 'notbuilt'), 1))
             return out
-        for k in range(1, self.N - i + 1):
+        for k in range(2 if (self.auto_edges and i == 0) else 1, self.N - i + 1):
             out.append((('U', k), 0))
         if c < self.max_cc and (i > 0 or self.early_c):
             out.append((('C',), 0))
@@ -309,6 +316,8 @@ class DistSystem:
         k = 2 if lo + 2 <= self.N else 1
         if lo + k > self.N:
             lo = self.N - k
+        if lo == 0 and self.auto_edges:
+            lo = self.N - k                      # a refused FIRST batch is made of other rows (narrower sample range) than the first valid batch
         tr = self.X[lo:lo + k].copy(); da = self.Y[lo:lo + k].copy()
         if kind == 'rows':
             da = np.concatenate([da, da[:1]], axis=0)
@@ -386,7 +395,8 @@ class DistSystem:
             cl = AUTO_VALUES if self.auto else CLASSES
             r, d = frac.partitioned(X, Y, cl, f); out = [(r, d, 1.0 if f == 'nicv' else None, frac.AMP[f])]
         elif f == 'mia':
-            r, d = frac.mia(X, Y, mia_edges(self.kind), AUTO_VALUES if self.auto else CLASSES); out = [(r, d, 1.0, None)]
+            edges = mia_edges(self.kind) if not self.auto_edges else np.linspace(float(self.X.min()), float(self.X.max()), 5).tolist()
+            r, d = frac.mia(X, Y, edges, AUTO_VALUES if self.auto else CLASSES); out = [(r, d, 1.0, None)]
         elif f == 'tplbuild':
             T, P, ok = frac.templates(X, Y[:, 0], TPLB_CLASSES)
             if ok:
@@ -609,18 +619,18 @@ def unit_test_text(system, hist):
     d = system.describe()
     return ('# replay without the explorer (PYTHONPATH=/repo:/verif):\n'
             'from checks.dsys import DistSystem\n'
-            's = DistSystem(%r, %r, %r, %d, %r, %r, %d, %d, auto=%r, policy=%r, rejections=%r, max_rej=%d); s.PROP = %r\n'
+            's = DistSystem(%r, %r, %r, %d, %r, %r, %d, %d, auto=%r, policy=%r, rejections=%r, max_rej=%d, auto_edges=%r); s.PROP = %r\n'
             'obj = s.fresh(); m = s.model_init()\n'
             'for ev in %r:\n    obs = s.apply(obj, ev); m, viol = s.model_step(m, ev, obs); assert not viol, viol\n'
             % (d['family'], d['trace_dtype'], d['precision'], d['S'], tuple(d['word_dims']), d['pool'], d['N'], system.seed, d['auto_classes'], d['clock_policy'],
-               tuple(system.rejections), system.max_rej, system.PROP, [tuple(ev) for ev in hist]))
+               tuple(system.rejections), system.max_rej, system.auto_edges, system.PROP, [tuple(ev) for ev in hist]))
 
 
 def replay_case(col, case, prop):
     """Re-execute one recorded history (replay file) and report what the oracle says now."""
     d = case['system']
     s = DistSystem(d['family'], d['trace_dtype'], d['precision'], d['S'], tuple(d['word_dims']), d['pool'], d['N'], case.get('seed', 0), auto=d['auto_classes'],
-                   policy=d['clock_policy'], rejections=tuple(case.get('rejection_menu', ())), max_rej=case.get('max_rejections', 0))
+                   policy=d['clock_policy'], rejections=tuple(case.get('rejection_menu', ())), max_rej=case.get('max_rejections', 0), auto_edges=d.get('auto_edges', False))
     s.PROP = prop
     obj = s.fresh(); m = s.model_init()
     hist = []
